@@ -103,13 +103,18 @@ def gjk_nesterov_accelerated(
     # normalize_support_direction is for soem reason only needed when both colliders are an mesh.
     normalize_support_direction = type(collider0) == MeshGraph and type(collider1) == MeshGraph
 
-    # Infaltion is only used with spheres and capsules
+    # Infaltion is only used with spheres and capsules. Their specialised
+    # support functions (center point / line segment) are only used when both
+    # colliders have a specialised support function, otherwise the generic
+    # support functions already include the radius.
+    specialised = (Sphere, Capsule, Box, Ellipsoid, Cylinder)
     inflation = 0.0
-    if type(collider0) == Sphere or type(collider0) == Capsule:
-        inflation += collider0.radius
+    if type(collider0) in specialised and type(collider1) in specialised:
+        if type(collider0) == Sphere or type(collider0) == Capsule:
+            inflation += collider0.radius
 
-    if type(collider1) == Sphere or type(collider1) == Capsule:
-        inflation += collider1.radius
+        if type(collider1) == Sphere or type(collider1) == Capsule:
+            inflation += collider1.radius
 
     upper_bound += inflation
 
